@@ -732,7 +732,7 @@ def _(e):
 @row("ttensor.__init__:core-not-a-tensor", (2,))
 def _(e):
     T = e.ttensor()
-    return "ttensor.__init__", ttb.ttensor, (np.array(T.core.data), list(T.factor_matrices)), {}, None, {}
+    return "ttensor.__init__", ttb.ttensor, (np.array(T.core.full().data), list(T.factor_matrices)), {}, None, {}
 
 
 @row("tenmat.__init__:data-shape-vs-dims", (2, 3))
